@@ -862,7 +862,7 @@ pub fn run(ctx: &Ctx) -> Report {
     for n in 2..=12 { for nv in 1..=4 { shapes.push((n, 0, nv)); } }
     for nx in 2..=12 { for ny in 2..=12 { for nv in 1..=4 { shapes.push((nx, ny, nv)); } } }
     let ne = shapes.len() as u64;
-    let nrand = ctx.vol(20_000, 400_000);
+    let nrand = ctx.vol(20_000, 1_200_000);
     let workdir = ctx.workdir.clone();
     let seed = ctx.seed;
 
